@@ -12,7 +12,7 @@ extern "C" void vp_pushing(d1::task* t);          // observer: push of t starts
 
 // thread programs fixed at compile time: SA / SB = operation of thread a / b:
 //   1 push (subsequent_lane_selector, as arena::enqueue_task / r1::submit), 2 pop (preceding_lane_selector, as
-//   arena::get_stream_task), 3 pop_specific(isolation) (as arena::get_critical_task), 4 two pushes
+//   arena::get_stream_task), 3 pop_specific(isolation) (as arena::get_critical_task), 4 two pushes, 5 two pops
 #ifndef SA
 #define SA 1
 #define SB 2
@@ -20,7 +20,8 @@ extern "C" void vp_pushing(d1::task* t);          // observer: push of t starts
 #define STREAM_OP(op, tid) \
   if (op == 1 || op == 4) { vp_pushing(t0); s->push(t0, subsequent_lane_selector(*hint)); } \
   if (op == 4) { vp_pushing(t1); s->push(t1, subsequent_lane_selector(*hint)); } \
-  if (op == 2) { d1::task* t = s->pop(preceding_lane_selector(*hint)); vp_got(tid, t); } \
+  if (op == 2 || op == 5) { d1::task* t = s->pop(preceding_lane_selector(*hint)); vp_got(tid, t); } \
+  if (op == 5) { d1::task* t = s->pop(preceding_lane_selector(*hint)); vp_got(tid, t); } \
   if (op == 3) { d1::task* t = s->pop_specific(*hint, iso); vp_got(tid, t); }
 
 extern "C" {
